@@ -156,8 +156,8 @@ def addUsage? (s : Reg) (r : RegId) (k : Option Name) (u : User) : Reg :=
 
 /-- `Registry.remove_usage(key, arg)` when `key` has a record: discard, pop the record when it became empty -/
 def removeUsageT (s : Reg) (r : RegId) (k : Name) (u : User) : Reg :=
-  let us := OSet.discard (users s r k) u
-  if us.isEmpty then setUsage s r (AL.del (s.usage r) k) else setUsage s r (AL.set (s.usage r) k us)
+  if (OSet.discard (users s r k) u).isEmpty then setUsage s r (AL.del (s.usage r) k)
+  else setUsage s r (AL.set (s.usage r) k (OSet.discard (users s r k) u))
 
 /-- `Registry.remove_usage(key, arg)`; `none` = `KeyError` (raised before anything was changed) -/
 def removeUsage (v : Variant) (s : Reg) (r : RegId) (k : Name) (u : User) : Option Reg :=
